@@ -641,12 +641,13 @@ theorem GetsR_partial {vars : List Nat} {ops : List Op} {tl : Term} {es : List T
 /-! ## run-time meaning of put-code -/
 
 /-- `ops` (put-instructions) append the terms `ps` to the argument registers — nothing else happens:
-    no unification, no fresh variable, one unit of fuel per instruction -/
+    no unification, no fresh variable; one unit of fuel per instruction (`none` = out of fuel) -/
 def PutsR (vars : List Nat) (ops : List Op) (ps : List Term) : Prop :=
   ∀ (fuel : Nat) (rest : List Op) (k : Cont) (args : List Term) (astack : List Frame)
     (env : Env) (cp : Nat) (m : MS),
-    exec (fuel + ops.length) (ops ++ rest) vars k args astack env cp m =
-      exec fuel rest vars k (args ++ ps) astack env cp m
+    exec fuel (ops ++ rest) vars k args astack env cp m =
+      if ops.length ≤ fuel then exec (fuel - ops.length) rest vars k (args ++ ps) astack env cp m
+      else none
 
 theorem PutsR_nil (vars : List Nat) : PutsR vars [] [] := by
   intro fuel rest k args astack env cp m
@@ -655,18 +656,35 @@ theorem PutsR_nil (vars : List Nat) : PutsR vars [] [] := by
 theorem PutsR_append {vars : List Nat} {ops1 ops2 : List Op} {ps1 ps2 : List Term}
     (h1 : PutsR vars ops1 ps1) (h2 : PutsR vars ops2 ps2) : PutsR vars (ops1 ++ ops2) (ps1 ++ ps2) := by
   intro fuel rest k args astack env cp m
-  have e : fuel + (ops1 ++ ops2).length = (fuel + ops2.length) + ops1.length := by
-    simp only [List.length_append]; omega
-  rw [e, List.append_assoc, h1, h2, List.append_assoc]
+  rw [List.append_assoc, h1]
+  by_cases c1 : ops1.length ≤ fuel
+  · rw [if_pos c1, h2]
+    by_cases c2 : ops2.length ≤ fuel - ops1.length
+    · have c3 : (ops1 ++ ops2).length ≤ fuel := by simp only [List.length_append]; omega
+      have e : fuel - ops1.length - ops2.length = fuel - (ops1 ++ ops2).length := by
+        simp only [List.length_append]; omega
+      rw [if_pos c2, if_pos c3, e, List.append_assoc]
+    · have c3 : ¬ (ops1 ++ ops2).length ≤ fuel := by simp only [List.length_append]; omega
+      rw [if_neg c2, if_neg c3]
+  · have c3 : ¬ (ops1 ++ ops2).length ≤ fuel := by simp only [List.length_append]; omega
+    rw [if_neg c1, if_neg c3]
 
-theorem PutsR_const (vars : List Nat) (c : Term) : PutsR vars [.putConst c] [c] := by
+/-- one instruction that appends a fixed term -/
+theorem PutsR_put1 (vars : List Nat) (op : Op) (b : Term)
+    (hstep : ∀ n pc k args astack env cp (m : MS),
+      exec (n + 1) (op :: pc) vars k args astack env cp m =
+        exec n pc vars k (args ++ [b]) astack env cp m) : PutsR vars [op] [b] := by
   intro fuel rest k args astack env cp m
-  exact exec_putConst fuel rest vars k args astack env cp m c
+  cases fuel with
+  | zero => simp [exec_zero]
+  | succ n => simp [hstep]
+
+theorem PutsR_const (vars : List Nat) (c : Term) : PutsR vars [.putConst c] [c] :=
+  PutsR_put1 vars _ _ (fun n pc k args astack env cp m => exec_putConst n pc vars k args astack env cp m c)
 
 theorem PutsR_var (vars : List Nat) (i v : Nat) (hv : vars[i]? = some v) :
-    PutsR vars [.putVar i] [.var v] := by
-  intro fuel rest k args astack env cp m
-  exact exec_putVar fuel rest vars k args astack env cp m i v hv
+    PutsR vars [.putVar i] [.var v] :=
+  PutsR_put1 vars _ _ (fun n pc k args astack env cp m => exec_putVar n pc vars k args astack env cp m i v hv)
 
 theorem PutsR_ctor {vars : List Nat} {ops : List Op} {ps : List Term} (op : Op) (c : Ctor)
     (hstep : ∀ n pc k args astack env cp (m : MS),
@@ -674,10 +692,25 @@ theorem PutsR_ctor {vars : List Nat} {ops : List Op} {ps : List Term} (op : Op) 
         exec n pc vars k [] (.put args c :: astack) env cp m)
     (h : PutsR vars ops ps) : PutsR vars (op :: ops ++ [.pop]) [buildCtor c ps] := by
   intro fuel rest k args astack env cp m
-  have e1 : fuel + (op :: ops ++ [Op.pop]).length = ((fuel + 1) + ops.length) + 1 := by
-    simp only [List.length_cons, List.length_append, List.length_nil]; omega
   have e2 : (op :: ops ++ [Op.pop]) ++ rest = op :: (ops ++ (Op.pop :: rest)) := by simp
-  rw [e1, e2, hstep, h, exec_pop_put, List.nil_append]
+  have el : (op :: ops ++ [Op.pop]).length = ops.length + 2 := by simp
+  rw [e2, el]
+  cases fuel with
+  | zero => simp [exec_zero]
+  | succ n =>
+    rw [hstep, h]
+    by_cases c1 : ops.length ≤ n
+    · rw [if_pos c1]
+      cases hj : n - ops.length with
+      | zero =>
+        have c3 : ¬ ops.length + 2 ≤ n + 1 := by omega
+        rw [if_neg c3, exec_zero]
+      | succ j =>
+        have c3 : ops.length + 2 ≤ n + 1 := by omega
+        have e : n + 1 - (ops.length + 2) = j := by omega
+        rw [if_pos c3, exec_pop_put, e, List.nil_append]
+    · have c3 : ¬ ops.length + 2 ≤ n + 1 := by omega
+      rw [if_neg c1, if_neg c3]
 
 theorem PutsR_functor {vars : List Nat} {ops : List Op} {ps : List Term} (g : String) (n : Nat)
     (h : PutsR vars ops ps) :
@@ -900,5 +933,442 @@ mutual
       · have := S.append (S.mono hr1 hp2) hr2
         simpa [compileArgs, Rep.absArgs, Args.toList] using this
 end
+
+/-! ## from run time to compile time: renaming the source variables to the activation's variables -/
+
+/-- ρ sends the source variable at offset `i` of the table to the activation variable `vars[i]` -/
+def Renames (tbl vars : List Nat) (ρ : Nat → Nat) : Prop :=
+  ∀ (i v : Nat), tbl[i]? = some v → vars[i]? = some (ρ v)
+
+theorem Renames.mono {tbl tbl' vars : List Nat} {ρ : Nat → Nat} (h : Renames tbl' vars ρ)
+    (hp : tbl <+: tbl') : Renames tbl vars ρ := fun i v hi => h i v (prefix_get hp hi)
+
+theorem Renames.mem {tbl vars : List Nat} {ρ : Nat → Nat} (h : Renames tbl vars ρ) {v : Nat}
+    (hv : v ∈ tbl) : ρ v ∈ vars := by
+  obtain ⟨i, hi, rfl⟩ := List.getElem_of_mem hv
+  exact List.mem_of_getElem? (h i _ (List.getElem?_eq_getElem hi))
+
+/-- every variable of the terms `ts` is in the table -/
+def VarsIn (tbl : List Nat) (ts : List Term) : Prop := ∀ t ∈ ts, ∀ v, t.hasVar v = true → v ∈ tbl
+
+theorem hasVar_ofList {v : Nat} : ∀ {ts : List Term}, (Args.ofList ts).hasVar v = true →
+    ∃ t ∈ ts, t.hasVar v = true
+  | [], h => by simp [Args.ofList, Args.hasVar] at h
+  | t :: ts, h => by
+    simp only [Args.ofList, Args.hasVar, Bool.or_eq_true] at h
+    rcases h with h | h
+    · exact ⟨t, by simp, h⟩
+    · obtain ⟨t', hm, ht'⟩ := hasVar_ofList h
+      exact ⟨t', by simp [hm], ht'⟩
+
+theorem hasVar_list {v : Nat} {tl : Term} : ∀ {es : List Term}, (Term.list es tl).hasVar v = true →
+    (∃ t ∈ es, t.hasVar v = true) ∨ tl.hasVar v = true
+  | [], h => Or.inr h
+  | e :: es, h => by
+    have e1 : Term.list (e :: es) tl = Term.consT e (Term.list es tl) := rfl
+    rw [e1] at h
+    simp only [Term.consT, Term.hasVar, Args.hasVar, Bool.or_false, Bool.or_eq_true] at h
+    rcases h with h | h
+    · exact Or.inl ⟨e, by simp, h⟩
+    · rcases hasVar_list h with ⟨t', hm, ht'⟩ | h'
+      · exact Or.inl ⟨t', by simp [hm], ht'⟩
+      · exact Or.inr h'
+
+/-- the variables of a renamed term are images of its variables -/
+theorem rename_below {N : Nat} {ρ : Nat → Nat} (t : Term) (h : ∀ v, t.hasVar v = true → ρ v < N) :
+    TBelow N (t.rename ρ) := by
+  intro θ θ' hag
+  simp only [Term.rename, Term.subst_comp]
+  exact subst_congr t _ _ (fun v hv => by simp [Subst.comp, Term.subst, hag (ρ v) (h v hv)])
+
+theorem rename_app (ρ : Nat → Nat) (g : String) (args : List Term) :
+    (Term.app g (Args.ofList args)).rename ρ = .app g (Args.ofList (args.map (Term.rename ρ))) := by
+  show Term.subst _ _ = _
+  rw [Term.subst, ofList_subst]; rfl
+
+theorem rename_list (ρ : Nat → Nat) (es : List Term) (tl : Term) :
+    (Term.list es tl).rename ρ = Term.list (es.map (Term.rename ρ)) (tl.rename ρ) := by
+  show Term.subst _ _ = _
+  rw [list_subst]; rfl
+
+/-- closure properties of a run-time meaning `RR vars ops ps` of argument code -/
+structure RunSem (hd : Bool) (RR : List Nat → List Op → List Term → Prop) : Prop where
+  nil : ∀ vars, RR vars [] []
+  append : ∀ {vars ops1 ops2 ps1 ps2}, RR vars ops1 ps1 → RR vars ops2 ps2 →
+    RR vars (ops1 ++ ops2) (ps1 ++ ps2)
+  const : ∀ vars c, RR vars [opConst hd c] [c]
+  var : ∀ vars i v, vars[i]? = some v → RR vars [opVar hd i] [.var v]
+  functor : ∀ {vars ops ps} g, RR vars ops ps →
+    RR vars (opFunctor hd g ps.length :: ops ++ [.pop]) [.app g (Args.ofList ps)]
+  list : ∀ {vars ops ps}, RR vars ops ps → RR vars (opList hd ps.length :: ops ++ [.pop]) [Term.list ps]
+  partial_ : ∀ {vars ops tl es}, RR vars ops (tl :: es) →
+    RR vars (opPartial hd es.length :: ops ++ [.pop]) [Term.list es tl]
+
+/-- the compile-time reading of a run-time meaning: the variables of the source terms are in the
+    table, and for every activation (`vars`, with ρ the renaming it induces) the code means the
+    RENAMED terms -/
+def Lift (RR : List Nat → List Op → List Term → Prop) (tbl : List Nat) (ops : List Op)
+    (ts : List Term) : Prop :=
+  VarsIn tbl ts ∧ ∀ vars ρ, Renames tbl vars ρ → RR vars ops (ts.map (Term.rename ρ))
+
+theorem lift_argSem {hd : Bool} {RR : List Nat → List Op → List Term → Prop} (S : RunSem hd RR) :
+    ArgSem hd (Lift RR) where
+  nil vs := ⟨fun _ h => by simp at h, fun vars _ _ => S.nil vars⟩
+  mono h hp := ⟨fun t ht v hv => hp.subset (h.1 t ht v hv), fun vars ρ hr => h.2 vars ρ (hr.mono hp)⟩
+  append h1 h2 :=
+    ⟨fun t ht v hv => by
+        rcases List.mem_append.1 ht with ht | ht
+        · exact h1.1 t ht v hv
+        · exact h2.1 t ht v hv,
+      fun vars ρ hr => by
+        rw [List.map_append]
+        exact S.append (h1.2 vars ρ hr) (h2.2 vars ρ hr)⟩
+  const vs t hc :=
+    ⟨fun t' ht' v hv => by
+        simp only [List.mem_singleton] at ht'
+        subst ht'
+        simp [hc v] at hv,
+      fun vars ρ _ => by
+        simp only [List.map_cons, List.map_nil, rename_closed hc]
+        exact S.const vars t⟩
+  var vs i v hv :=
+    ⟨fun t' ht' w hw => by
+        simp only [List.mem_singleton] at ht'
+        subst ht'
+        simp only [Term.hasVar, beq_iff_eq] at hw
+        subst hw
+        exact List.mem_of_getElem? hv,
+      fun vars ρ hr => S.var vars i (ρ v) (hr i v hv)⟩
+  functor vs g ops args h :=
+    ⟨fun t' ht' w hw => by
+        simp only [List.mem_singleton] at ht'
+        subst ht'
+        obtain ⟨t, hm, ht⟩ := hasVar_ofList (by simpa [Term.hasVar] using hw)
+        exact h.1 t hm w ht,
+      fun vars ρ hr => by
+        have := S.functor g (h.2 vars ρ hr)
+        simpa [rename_app] using this⟩
+  list vs ops es h :=
+    ⟨fun t' ht' w hw => by
+        simp only [List.mem_singleton] at ht'
+        subst ht'
+        rcases hasVar_list hw with ⟨t, hm, ht⟩ | hw'
+        · exact h.1 t hm w ht
+        · simp [Term.nilT, Term.hasVar] at hw',
+      fun vars ρ hr => by
+        have := S.list (h.2 vars ρ hr)
+        have e : (Term.list es).rename ρ = Term.list (es.map (Term.rename ρ)) := rename_list ρ es _
+        simpa [e] using this⟩
+  partial_ vs ops tl es h :=
+    ⟨fun t' ht' w hw => by
+        simp only [List.mem_singleton] at ht'
+        subst ht'
+        rcases hasVar_list hw with ⟨t, hm, ht⟩ | hw'
+        · exact h.1 t (by simp [hm]) w ht
+        · exact h.1 tl (by simp) w hw',
+      fun vars ρ hr => by
+        have := S.partial_ (h.2 vars ρ hr)
+        simpa [rename_list] using this⟩
+
+theorem getsR_runSem : RunSem true GetsR where
+  nil := GetsR_nil
+  append := GetsR_append
+  const := GetsR_const
+  var := GetsR_var
+  functor g h := GetsR_functor g h
+  list h := GetsR_list h
+  partial_ h := GetsR_partial h
+
+theorem putsR_runSem : RunSem false PutsR where
+  nil := PutsR_nil
+  append := PutsR_append
+  const := PutsR_const
+  var := PutsR_var
+  functor g h := PutsR_functor g _ h
+  list h := PutsR_list _ h
+  partial_ h := PutsR_partial _ h
+
+/-- compile-time meaning of head code / body-argument code -/
+abbrev Gets := Lift GetsR
+abbrev Puts := Lift PutsR
+
+theorem compileHeadArgs_gets (rs : RepList) (c : CState) (hw : WFs rs = true) :
+    ∃ ops, (compileHeadArgs rs c).code = c.code ++ ops ∧ c.vars <+: (compileHeadArgs rs c).vars ∧
+      (c.vars.Nodup → (compileHeadArgs rs c).vars.Nodup) ∧
+      Gets (compileHeadArgs rs c).vars ops (Rep.absArgs rs).toList := by
+  rw [compileHeadArgs_eq]
+  exact compileArgs_sem (lift_argSem getsR_runSem) rs c hw
+
+theorem compileBodyArgs_puts (rs : RepList) (c : CState) (hw : WFs rs = true) :
+    ∃ ops, (compileBodyArgs rs c).code = c.code ++ ops ∧ c.vars <+: (compileBodyArgs rs c).vars ∧
+      (c.vars.Nodup → (compileBodyArgs rs c).vars.Nodup) ∧
+      Puts (compileBodyArgs rs c).vars ops (Rep.absArgs rs).toList := by
+  rw [compileBodyArgs_eq]
+  exact compileArgs_sem (lift_argSem putsR_runSem) rs c hw
+
+/-! ## the canonical renaming of an activation -/
+
+/-- source variable ↦ the activation variable at its offset in the table (identity off the table) -/
+def renOf (tbl vars : List Nat) (v : Nat) : Nat :=
+  match indexOf? tbl v with
+  | some i => vars.getD i v
+  | none => v
+
+theorem indexOf_go_nodup (v : Nat) : ∀ (xs : List Nat) (k i : Nat), xs.Nodup → xs[i]? = some v →
+    indexOf?.go v xs k = some (i + k)
+  | [], _, _, _, h => by simp at h
+  | x :: xs, k, 0, _, h => by
+    simp only [List.getElem?_cons_zero, Option.some.injEq] at h
+    simp [indexOf?.go, h]
+  | x :: xs, k, i + 1, hn, h => by
+    simp only [List.getElem?_cons_succ] at h
+    have hv : v ∈ xs := List.mem_of_getElem? h
+    have hx : x ≠ v := by
+      rintro rfl
+      exact (List.nodup_cons.1 hn).1 hv
+    simp only [indexOf?.go, hx, if_false]
+    rw [indexOf_go_nodup v xs (k + 1) i (List.nodup_cons.1 hn).2 h]
+    congr 1; omega
+
+theorem renames_renOf {tbl vars : List Nat} (hn : tbl.Nodup) (hl : tbl.length ≤ vars.length) :
+    Renames tbl vars (renOf tbl vars) := by
+  intro i v hi
+  have hidx : indexOf? tbl v = some i := by
+    have := indexOf_go_nodup v tbl 0 i hn hi
+    simpa [indexOf?] using this
+  have hlt : i < tbl.length := by
+    rcases Nat.lt_or_ge i tbl.length with h | h
+    · exact h
+    · rw [List.getElem?_eq_none h] at hi; cases hi
+  have hlt' : i < vars.length := Nat.lt_of_lt_of_le hlt hl
+  simp [renOf, hidx, List.getD, List.getElem?_eq_getElem hlt']
+
+theorem nodup_getElem?_inj {a : Nat} : ∀ {l : List Nat} {i j : Nat}, l.Nodup → l[i]? = some a →
+    l[j]? = some a → i = j
+  | [], _, _, _, h, _ => by simp at h
+  | x :: xs, 0, 0, _, _, _ => rfl
+  | x :: xs, 0, j + 1, hn, h1, h2 => by
+    simp only [List.getElem?_cons_zero, Option.some.injEq] at h1
+    simp only [List.getElem?_cons_succ] at h2
+    subst h1
+    exact absurd (List.mem_of_getElem? h2) (List.nodup_cons.1 hn).1
+  | x :: xs, i + 1, 0, hn, h1, h2 => by
+    simp only [List.getElem?_cons_zero, Option.some.injEq] at h2
+    simp only [List.getElem?_cons_succ] at h1
+    subst h2
+    exact absurd (List.mem_of_getElem? h1) (List.nodup_cons.1 hn).1
+  | x :: xs, i + 1, j + 1, hn, h1, h2 => by
+    simp only [List.getElem?_cons_succ] at h1 h2
+    rw [nodup_getElem?_inj (List.nodup_cons.1 hn).2 h1 h2]
+
+/-- a renaming onto pairwise distinct activation variables is one-to-one on the table:
+    the renamed clause is a VARIANT of the source clause -/
+theorem Renames.inj {tbl vars : List Nat} {ρ : Nat → Nat} (h : Renames tbl vars ρ) (hn : vars.Nodup)
+    {v w : Nat} (hv : v ∈ tbl) (hw : w ∈ tbl) (he : ρ v = ρ w) : v = w := by
+  obtain ⟨i, hi, rfl⟩ := List.getElem_of_mem hv
+  obtain ⟨j, hj, rfl⟩ := List.getElem_of_mem hw
+  have h1 := h i _ (List.getElem?_eq_getElem hi)
+  have h2 := h j _ (List.getElem?_eq_getElem hj)
+  rw [he] at h1
+  have := nodup_getElem?_inj hn h1 h2
+  subst this
+  rfl
+
+theorem freshL_nodup (N n : Nat) : (freshL N n).Nodup := by
+  simp only [freshL]
+  rw [List.nodup_iff_pairwise_ne, List.pairwise_map]
+  exact List.Pairwise.imp (fun {a b} (h : a < b) => by omega) List.pairwise_lt_range
+
+/-! ## body goals -/
+
+/-- functor name and argument list of a callable term -/
+def functorName : Term → String
+  | .atom s => s
+  | .app f _ => f
+  | _ => ""
+
+def argList : Term → List Term
+  | .app _ as => as.toList
+  | _ => []
+
+theorem toList_subst (θ : Subst) : ∀ as : Args, (as.subst θ).toList = as.toList.map (Term.subst θ)
+  | .nil => rfl
+  | .cons t ts => by simp [Args.subst, Args.toList, toList_subst θ ts]
+
+theorem functorName_rename (ρ : Nat → Nat) (t : Term) (h : ∀ v, t ≠ .var v) :
+    functorName (t.rename ρ) = functorName t := by
+  cases t with
+  | var v => exact absurd rfl (h v)
+  | _ => rfl
+
+theorem argList_rename (ρ : Nat → Nat) (t : Term) :
+    argList (t.rename ρ) = (argList t).map (Term.rename ρ) := by
+  cases t with
+  | app f as => simp only [Term.rename, Term.subst, argList, toList_subst]; rfl
+  | _ => rfl
+
+/-- `seg` builds the arguments `ps` and calls `f`: running it IS arriving at `f(ps)` with the rest
+    of the clause as the continuation — same environment, same machine state -/
+def CallsR (vars : List Nat) (seg : List Op) (f : String) (ps : List Term) : Prop :=
+  ∀ (fuel : Nat) (rest : List Op) (k : Cont) (env : Env) (cp : Nat) (m : MS),
+    exec fuel (seg ++ rest) vars k [] [] env cp m =
+      if seg.length ≤ fuel then arrive (fuel - seg.length) f ps (.exec rest vars cp k) env m else none
+
+theorem CallsR_of_puts {vars : List Nat} {ops : List Op} {ps : List Term} (f : String) (n : Nat)
+    (h : PutsR vars ops ps) : CallsR vars (ops ++ [.call f n]) f ps := by
+  intro fuel rest k env cp m
+  rw [List.append_assoc, h, List.length_append, List.length_singleton, List.nil_append,
+    List.singleton_append]
+  by_cases c1 : ops.length ≤ fuel
+  · rw [if_pos c1]
+    cases hj : fuel - ops.length with
+    | zero =>
+      have c3 : ¬ ops.length + 1 ≤ fuel := by omega
+      rw [if_neg c3, exec_zero]
+    | succ j =>
+      have c3 : ops.length + 1 ≤ fuel := by omega
+      have e : fuel - (ops.length + 1) = j := by omega
+      rw [if_pos c3, exec_call, e]
+  · have c3 : ¬ ops.length + 1 ≤ fuel := by omega
+    rw [if_neg c1, if_neg c3]
+
+/-- compile-time meaning of the code of a goal that is not `!`: for every activation the code
+    calls the RENAMED goal -/
+def CallSem (tbl : List Nat) (seg : List Op) (T : Term) : Prop :=
+  VarsIn tbl [T] ∧
+  ∀ vars ρ, Renames tbl vars ρ → CallsR vars seg (functorName (T.rename ρ)) (argList (T.rename ρ))
+
+theorem CallSem.mono {tbl tbl' : List Nat} {seg : List Op} {T : Term} (h : CallSem tbl seg T)
+    (hp : tbl <+: tbl') : CallSem tbl' seg T :=
+  ⟨fun t ht v hv => hp.subset (h.1 t ht v hv), fun vars ρ hr => h.2 vars ρ (hr.mono hp)⟩
+
+/-- meaning of the code of one body goal: `!` is the cut instruction, anything else a call -/
+def GoalSem (tbl : List Nat) (seg : List Op) (g : Rep) : Prop :=
+  (g = .atom "!" ∧ seg = [.cut]) ∨ (g ≠ .atom "!" ∧ CallSem tbl seg (goalTerm g))
+
+theorem GoalSem.mono {tbl tbl' : List Nat} {seg : List Op} {g : Rep} (h : GoalSem tbl seg g)
+    (hp : tbl <+: tbl') : GoalSem tbl' seg g := by
+  rcases h with h | ⟨h1, h2⟩
+  · exact Or.inl h
+  · exact Or.inr ⟨h1, h2.mono hp⟩
+
+/-- meaning of the code of a goal sequence: the goals' segments, in order -/
+inductive BodySem (tbl : List Nat) : List Op → List Rep → Prop
+  | nil : BodySem tbl [] []
+  | cons {seg ops : List Op} {g : Rep} {gs : List Rep} :
+      GoalSem tbl seg g → BodySem tbl ops gs → BodySem tbl (seg ++ ops) (g :: gs)
+
+theorem BodySem.mono {tbl tbl' : List Nat} {ops : List Op} {gs : List Rep} (h : BodySem tbl ops gs)
+    (hp : tbl <+: tbl') : BodySem tbl' ops gs := by
+  induction h with
+  | nil => exact .nil
+  | cons hg _ ih => exact .cons (hg.mono hp) ih
+
+theorem hasVar_toList {v : Nat} {as : Args} (h : as.hasVar v = true) : ∃ t ∈ as.toList, t.hasVar v = true := by
+  have := hasVar_ofList (ts := as.toList) (v := v) (by simpa using h)
+  exact this
+
+/-- a goal with its arguments compiled by `compileBodyArgs`, then `call` -/
+theorem call_sem (f : String) (rs : RepList) (c : CState) (hw : WFs rs = true) :
+    ∃ seg, (emit (compileBodyArgs rs c) (.call f rs.length)).code = c.code ++ seg ∧
+      c.vars <+: (compileBodyArgs rs c).vars ∧
+      (c.vars.Nodup → (compileBodyArgs rs c).vars.Nodup) ∧
+      CallSem (compileBodyArgs rs c).vars seg (.app f (Rep.absArgs rs)) := by
+  obtain ⟨ops, hcode, hp, hn, hv, hr⟩ := compileBodyArgs_puts rs c hw
+  refine ⟨ops ++ [.call f rs.length], by simp [hcode], hp, hn, ?_, ?_⟩
+  · intro t ht v hvv
+    simp only [List.mem_singleton] at ht
+    subst ht
+    obtain ⟨t', hm, ht'⟩ := hasVar_toList (by simpa [Term.hasVar] using hvv)
+    exact hv t' hm v ht'
+  · intro vars ρ hren
+    have := CallsR_of_puts f rs.length (hr vars ρ hren)
+    rw [argList_rename, functorName_rename _ _ (fun v => by simp)]
+    exact this
+
+theorem compilePred_sem (g : Rep) (c c' : CState) (hw : WF g = true) (h : compilePred g c = some c') :
+    ∃ seg, c'.code = c.code ++ seg ∧ c.vars <+: c'.vars ∧ (c.vars.Nodup → c'.vars.Nodup) ∧
+      GoalSem c'.vars seg g := by
+  have cell : isCell g = true → ∃ seg, c'.code = c.code ++ seg ∧ c.vars <+: c'.vars ∧
+      (c.vars.Nodup → c'.vars.Nodup) ∧ GoalSem c'.vars seg g := by
+    intro hc
+    obtain ⟨a, b, h0, h1, hwa, hwb, habs⟩ := cell_args g hw hc
+    rw [compilePred_cell c hc h0 h1] at h
+    cases h
+    obtain ⟨seg, h1, h2, h3, h4⟩ :=
+      call_sem "." (.cons a (.cons b .nil)) c (by simp [WFs, hwa, hwb])
+    have hg : goalTerm g = Rep.abs g := by cases g <;> simp [isCell] at hc <;> rfl
+    have hne : g ≠ .atom "!" := by rintro rfl; simp [isCell] at hc
+    refine ⟨seg, ?_, ?_, ?_, Or.inr ⟨hne, ?_⟩⟩
+    · simpa [compileBodyArgs, RepList.length] using h1
+    · simpa [compileBodyArgs] using h2
+    · simpa [compileBodyArgs] using h3
+    · simpa [compileBodyArgs, Rep.absArgs, hg, habs] using h4
+  cases g with
+  | var v =>
+    simp only [compilePred, Option.some.injEq] at h
+    subst h
+    obtain ⟨seg, h1, h2, h3, h4⟩ := call_sem "call" (.cons (.var v) .nil) c (by simp [WFs, WF])
+    refine ⟨seg, ?_, ?_, ?_, Or.inr ⟨by simp, ?_⟩⟩
+    · simpa [compileBodyArgs, RepList.length] using h1
+    · simpa [compileBodyArgs] using h2
+    · simpa [compileBodyArgs] using h3
+    · simpa [compileBodyArgs, Rep.absArgs, goalTerm, Rep.abs] using h4
+  | atom s =>
+    by_cases hs : s = "!"
+    · subst hs
+      simp only [compilePred, Option.some.injEq] at h
+      subst h
+      exact ⟨[.cut], by simp, by simp, by simp, Or.inl ⟨rfl, rfl⟩⟩
+    · simp only [compilePred, Option.some.injEq] at h
+      subst h
+      refine ⟨[.call s 0], by simp, by simp, by simp, Or.inr ⟨by simpa using hs, ?_, ?_⟩⟩
+      · intro t ht v hv
+        simp only [List.mem_singleton] at ht
+        subst ht
+        simp [goalTerm, Rep.abs, Term.hasVar] at hv
+      · intro vars ρ _
+        have := CallsR_of_puts s 0 (PutsR_nil vars)
+        simpa [goalTerm, Rep.abs, Term.rename, Term.subst, functorName, argList] using this
+  | compound f args =>
+    simp only [compilePred, Option.some.injEq] at h
+    subst h
+    simp only [WF, Bool.and_eq_true] at hw
+    obtain ⟨seg, h1, h2, h3, h4⟩ := call_sem f args c hw.2
+    exact ⟨seg, h1, by simpa using h2, by simpa using h3,
+      Or.inr ⟨by simp, by simpa [goalTerm, Rep.abs] using h4⟩⟩
+  | int _ => simp [compilePred] at h
+  | flt _ => simp [compilePred] at h
+  | str _ => simp [compilePred] at h
+  | list _ => exact cell rfl
+  | charList _ => exact cell rfl
+  | codeList _ => exact cell rfl
+  | part _ _ => exact cell rfl
+
+theorem goals_sem : ∀ (gs : List Rep) (c c' : CState), (∀ g ∈ gs, WF g = true) →
+    gs.foldl (fun oc g => oc.bind (compilePred g)) (some c) = some c' →
+    ∃ ops, c'.code = c.code ++ ops ∧ c.vars <+: c'.vars ∧ (c.vars.Nodup → c'.vars.Nodup) ∧
+      BodySem c'.vars ops gs
+  | [], c, c', _, h => by
+    simp only [List.foldl, Option.some.injEq] at h
+    subst h
+    exact ⟨[], by simp, List.prefix_refl _, id, .nil⟩
+  | g :: gs, c, c', hw, h => by
+    simp only [List.foldl, Option.bind_some] at h
+    cases h1 : compilePred g c with
+    | none => rw [h1, foldl_bind_none] at h; cases h
+    | some c1 =>
+      rw [h1] at h
+      obtain ⟨seg, hc1, hp1, hn1, hr1⟩ := compilePred_sem g c c1 (hw g (by simp)) h1
+      obtain ⟨ops, hc2, hp2, hn2, hr2⟩ := goals_sem gs c1 c' (fun g' hg' => hw g' (by simp [hg'])) h
+      exact ⟨seg ++ ops, by simp [hc2, hc1], List.IsPrefix.trans hp1 hp2, fun hc => hn2 (hn1 hc),
+        .cons (hr1.mono hp2) hr2⟩
+
+theorem compileBody_sem (body : Rep) (c c' : CState) (hw : ∀ g ∈ seqGoals body, WF g = true)
+    (h : compileBody body c = some c') :
+    ∃ ops, c'.code = c.code ++ Op.enter :: ops ∧ c.vars <+: c'.vars ∧
+      (c.vars.Nodup → c'.vars.Nodup) ∧ BodySem c'.vars ops (seqGoals body) := by
+  obtain ⟨ops, hc, hp, hn, hr⟩ := goals_sem (seqGoals body) (emit c .enter) c' hw h
+  exact ⟨ops, by simp [hc], by simpa using hp, by simpa using hn, hr⟩
 
 end PrologVerif.Activation
